@@ -68,6 +68,10 @@ func c16Struct(r *h.Rand, sc *gen.Schema, depth int, n *int) *gen.StructT {
 				case tref.I16:
 					f.Default = tref.Int16(int16(1 + r.Intn(30000)))
 				}
+				// a declared default that equals the type's zero value is still a declared default
+				if f.Default != nil && r.Chance(25) {
+					f.Default = zeroOf(f.T)
+				}
 			}
 		}
 		st.Fields = append(st.Fields, f)
